@@ -280,6 +280,42 @@ def fuse_prov(ctx: Ctx) -> None:
     v, rs = _roots_of_kw(repo, f, fl, cfg, po[0], "source_array_names", None)
     ok = bool(rs) and all(r == f"param:{pred}.source_array_names" for r in rs)
     ctx.ob(f, po[0], ok, "fuse: source_array_names are the predecessor's", sel="prov:fuse:source_array_names")
+    # composition order in fuse(): keys flow successor → predecessor, blocks predecessor → successor
+    fz = repo.get(f"{A.PBW}.fuse")
+    zfl, zcfg = flow_of(repo, fz), cfg_of(fz)
+
+    def owner_of(expr: ast.AST, d: Def) -> str | None:
+        """which of fuse()'s parameters an attribute chain `<pipelineN>.config.X` belongs to"""
+        b = expr
+        while isinstance(b, ast.Attribute):
+            b = b.value
+        if not isinstance(b, ast.Name):
+            return None
+        for s_ in zfl.sites.get(next((nid for nid, ss in zfl.sites.items() if any(x.name == b.id and x.kind == "assign" for x in ss)), -1), []):
+            if s_.name == b.id and s_.value is not None:
+                r = unparse(s_.value)
+                for prm in (pred, succ):
+                    if r.startswith(prm + "."):
+                        return prm
+        return b.id if b.id in (pred, succ) else None
+
+    kf = fz.children.get("fused_key_func")
+    ff = fz.children.get("fused_func")
+    okk = okf = False
+    if kf is not None:
+        rets = [n for n in kf.own_nodes() if isinstance(n, ast.Return)]
+        if len(rets) == 1 and isinstance(rets[0].value, ast.Call):
+            outer = rets[0].value
+            inner = [c for a in outer.args for c in ast.walk(a) if isinstance(c, ast.Call) and isinstance(c.func, ast.Attribute) and c.func.attr == "back_key_function"]
+            okk = isinstance(outer.func, ast.Attribute) and outer.func.attr == "back_key_function" and owner_of(outer.func, kf) == pred and len(inner) == 1 and owner_of(inner[0].func, kf) == succ and inner[0].args and unparse(inner[0].args[0]) == kf.params[0]
+    ctx.ob(fz, kf.node if kf else None, okk, "fuse: the fused key function applies the successor's key function to the output key and the predecessor's to its result", sel="prov:fuse:key-compose")
+    if ff is not None:
+        rets = [n for n in ff.own_nodes() if isinstance(n, ast.Return)]
+        if len(rets) == 1 and isinstance(rets[0].value, ast.Call):
+            outer = rets[0].value
+            inner = [c for a in outer.args for c in ast.walk(a) if isinstance(c, ast.Call) and isinstance(c.func, ast.Attribute) and c.func.attr == "function"]
+            okf = isinstance(outer.func, ast.Attribute) and outer.func.attr == "function" and owner_of(outer.func, ff) == succ and len(inner) == 1 and owner_of(inner[0].func, ff) == pred and any(isinstance(a, ast.Starred) and unparse(a.value) == ff.vararg for a in inner[0].args)
+    ctx.ob(fz, ff.node if ff else None, okf, "fuse: the fused block function feeds the predecessor's result to the successor's function", sel="prov:fuse:func-compose")
     # fuse_multiple(op, *preds)
     f = repo.get(f"{A.PBW}.fuse_multiple")
     succ, preds = f.params[0], f.vararg
